@@ -40,6 +40,27 @@ TABLE_APP_LWE = [
                   "result": "shift", "ret": USZ}},
     {"file": LW, "fn": "pack_lwe_ciphertexts", "impl": "Evaluator", "lean": "lwe_pack_log", "model": "packLog", "fuels": [65],
      "fragment": {"start": "let mut l = 0;", "count": 2, "params": [("lwes_count", USZ)], "result": "l", "ret": USZ}},
+    # the leaf loop of `pack_lwe_ciphertexts`: which input goes to which slot of `rlwes` (plan entry = input index, or `lwes_count` for "zero")
+    {"file": UB, "fn": "reverse_bits_u64", "lean": "lwe_reverse_bits_u64", "model": "brev"},
+    {"file": LW, "fn": "pack_lwe_ciphertexts", "impl": "Evaluator", "lean": "lwe_pack_leaves", "model": "packLeaves (index structure)",
+     "fncalls": {"util::reverse_bits_u64": (UB, "reverse_bits_u64")},
+     "effects": {"rlwes[i] = self.assemble_lwe(&lwes[index])": "plan.push(index);",
+                 "self.divide_by_poly_modulus_degree_inplace(&mut rlwes[i], None)": "",
+                 "rlwes[i] = zero_rlwe.clone()": "plan.push(lwes_count);"},
+     "fragment": {"start": "for i in 0..(1<<l) {", "count": 1, "params": [("l", USZ), ("lwes_count", USZ)], "prologue": "let mut plan = vec![];",
+                  "result": "plan", "ret": ("vec", USZ)}},
+    # the merge layers of `pack_lwe_ciphertexts`: per butterfly the plan records (odd slot, shift, even slot, Galois element)
+    {"file": LW, "fn": "pack_lwe_ciphertexts", "impl": "Evaluator", "lean": "lwe_pack_merge_plan", "model": "packLayer (index structure)",
+     "fuels": [18446744073709551616],
+     "effects": {"let even = unsafe {rlwes.as_mut_ptr().add(offset).as_mut().unwrap()}": "let even = offset;",
+                 "let odd = unsafe {rlwes.as_mut_ptr().add(offset + gap).as_mut().unwrap()}": "let odd = offset + gap;",
+                 "polymod::negacyclic_shift_ps(odd.data(), shift, odd.size(), poly_modulus_degree, modulus, temp.data_mut())": "plan.push(odd); plan.push(shift);",
+                 "self.sub(even, &temp, odd)": "", "self.add_inplace(even, &temp)": "",
+                 "self.transform_to_ntt_inplace(odd)": "",
+                 "self.apply_galois_inplace(odd, (1 << (layer + 1)) + 1, automorphism_keys)": "plan.push(even); plan.push((1<<(layer+1))+1);",
+                 "self.transform_from_ntt_inplace(odd)": "", "self.add_inplace(even, odd)": ""},
+     "fragment": {"start": "for layer in 0..l {", "count": 1, "params": [("l", USZ), ("poly_modulus_degree", USZ), ("ntt_form", ("name", "bool"))],
+                  "prologue": "let mut plan = vec![];", "result": "plan", "ret": ("vec", USZ)}},
     # `field_trace_inplace`: the whole loop; `apply_galois` + `add_inplace` = one step with the Galois element recorded
     {"file": LW, "fn": "field_trace_inplace", "impl": "Evaluator", "lean": "lwe_field_trace_plan", "model": "fieldTracePoly (loop structure)", "fuels": [65],
      "opaque": ["self"],
